@@ -447,6 +447,7 @@ func runC11(c C11Case, _ bool) *fOutcome {
 	wk := workerapi.NewServer(ph)
 	wk.ResolveRoute = w.state.resolvePull
 	wk.Authorize = w.state.authorizeWorker
+	wk.PlanRequest = w.state.planWorker // as startServers wires it
 
 	// population: per route two queued messages and one leased (lease id known)
 	leases := map[int]string{}
